@@ -1955,6 +1955,15 @@ class Parallel(Logger):
                 raise RuntimeError(msg)
             self._running = True
 
+            # Create an ID that uniquely identifies the current call. If the
+            # previous call was interrupted early and the same instance is
+            # immediately reused, this id is used to ignore the callbacks of
+            # workers that were concurrently finalizing a task from the
+            # previous call. It has to change before the flags and counters
+            # below are reset, otherwise such a callback would be accounted
+            # to the new call.
+            self._call_id = uuid4().hex
+
         # Counter to keep track of the task dispatched and completed.
         self.n_dispatched_batches = 0
         self.n_dispatched_tasks = 0
@@ -1996,13 +2005,7 @@ class Parallel(Logger):
             next(output)
             return output if self.return_generator else list(output)
 
-        # Let's create an ID that uniquely identifies the current call. If the
-        # call is interrupted early and that the same instance is immediately
-        # reused, this id will be used to prevent workers that were
-        # concurrently finalizing a task from the previous call to run the
-        # callback.
         with self._lock:
-            self._call_id = uuid4().hex
             # Drop the batches that a previous, interrupted call sliced from
             # its own input but never dispatched: they must not be dispatched
             # as part of this call.
